@@ -157,6 +157,7 @@ func compareAggregate(agg [][2]string, want map[string]string, posOf func(string
 
 func C13(c *core.Ctx) {
 	c.Explanation("C13: the aggregate writers and the per-sequence writers are interpreted on the same bounded families of per-sequence results (all sequences of up to three records drawn from fixed mutation lists, with and without a reference record, thresholds 0, 0.5 (an occurring frequency) and 1, two windows, --append-snps on/off); the aggregate output must list exactly the mutations whose count over the per-sequence writer's rows divided by the number of rows is >= threshold, each once, with that frequency printed by FormatFloat('f', 9, 64), in non-decreasing genomic position. This decides the counting map, the denominator (reference excluded), the threshold comparison, the shared window predicate and the number format for those families; it does not decide that a mutation occurs at most once per sequence's list (assumed).")
+	c15WindowFilter(c) // under every window the aggregate table is over the same mutations the per-sequence rows list
 	checkReferenceRecordName(c, "R6")
 	c.Assumption("a mutation occurs at most once in one sequence's list (property C04/C05 territory; checked on the single-site family under four annotations, R7)")
 	if tabs := extractTables(c, newEval(c), "R0t"); tabs.OK {
